@@ -308,3 +308,200 @@ Proof.
   - cbn. rewrite bytes_eqb_refl. discriminate.
   - destruct (unk c g); [discriminate|reflexivity].
 Qed.
+
+(* ================================================================ order independence for compatible operands *)
+Definition wf_map (m : pmap) : Prop := forall f, al_sorted (kyd m f) = true.
+(* disjoint-or-identical: wherever both carry a value (or a key), it is the same *)
+Definition compat (a b : pmap) : Prop :=
+  (forall f x y, unk a f = Some x -> unk b f = Some y -> x = y) /\
+  (forall f k x y, al_find k (kyd a f) = Some x -> al_find k (kyd b f) = Some y -> x = y).
+(* the part of a field that its statement does not merge is the same in both (negation: the F3 class) *)
+Definition agree_unmerged (tbl : list (field * merge_policy)) (a b : pmap) : Prop :=
+  forall f, (keeps_unk (policy_of tbl f) = false -> unk a f = unk b f) /\ (keeps_kyd (policy_of tbl f) = false -> kyd a f = kyd b f).
+(* no clearing statement fires when `other` is merged into `self` (negation: the utxo-clearing class) *)
+Definition quiet (tbl : list (field * merge_policy)) (self other : pmap) : Prop :=
+  forall f cl, In (f, MP_FirstWinsClearing cl) tbl -> unk self f = None -> unk other f = None.
+
+Lemma step_unk_quiet guarded f p self other c :
+  step_with guarded (f, p) self other = Val c -> (forall cl, p = MP_FirstWinsClearing cl -> unk self f = None -> unk other f = None) ->
+  forall g, unk c g = if bytes_eqb g f then apply_unk p (unk self f) (unk other f) else unk self g.
+Proof.
+  unfold step_with. cbn [fst snd]. intros H Q g.
+  destruct p; cbn [apply_unk]; try (injection H as <-; cbn [set_unk set_kyd unk]; destruct (bytes_eqb_spec g f) as [->|]; reflexivity).
+  - specialize (Q _ eq_refl). destruct (unk self f) eqn:S.
+    + assert (c = self) as -> by (destruct (unk other f); now injection H). cbn [first_wins].
+      destruct (bytes_eqb_spec g f) as [->|]; [assumption|reflexivity].
+    + rewrite (Q eq_refl) in *. injection H as <-. cbn [first_wins]. destruct (bytes_eqb_spec g f) as [->|]; [assumption|reflexivity].
+  - destruct (xpub_merge_with guarded (kyd self f) (kyd other f)); cbn [obind] in H; try discriminate. injection H as <-.
+    cbn [set_kyd unk]. destruct (bytes_eqb_spec g f) as [->|]; reflexivity.
+Qed.
+
+Lemma run_steps_unk_quiet guarded tbl : forall self other c,
+  nodup_fields tbl = true -> quiet tbl self other -> run_steps guarded tbl self other = Val c ->
+  forall g, unk c g = apply_unk (policy_of tbl g) (unk self g) (unk other g).
+Proof.
+  induction tbl as [|[f p] r IH]; intros self other c ND Q H g.
+  - cbn in H. injection H as <-. reflexivity.
+  - cbn [run_steps] in H. destruct (step_with guarded (f, p) self other) as [s1| |] eqn:S; cbn [obind] in H; try discriminate.
+    cbn [nodup_fields] in ND. apply andb_true_iff in ND as [ND1 ND]. cbn [fst] in ND1. apply negb_true_iff in ND1.
+    assert (forall g, unk s1 g = if bytes_eqb g f then apply_unk p (unk self f) (unk other f) else unk self g) as U.
+    { eapply step_unk_quiet; eauto. intros cl ->. apply (Q f cl). now left. }
+    assert (quiet r s1 other) as Q'.
+    { intros f' cl' I. rewrite U. destruct (bytes_eqb_spec f' f) as [->|N].
+      - exfalso. rewrite existsb_exists in ND1 || (assert (existsb (fun t => bytes_eqb f (fst t)) r = true) as X; [|congruence]).
+        apply existsb_exists. exists (f, MP_FirstWinsClearing cl'). split; [assumption|]. cbn. apply bytes_eqb_refl.
+      - apply (Q f' cl'). now right. }
+    rewrite (IH s1 other c ND Q' H g), U.
+    destruct (bytes_eqb g f) eqn:E.
+    + apply bytes_eqb_eq in E. subst g. rewrite policy_of_cons_same, (policy_of_absent r f ND1). reflexivity.
+    + now rewrite (policy_of_cons_other _ _ _ _ E).
+Qed.
+
+Lemma apply_unk_comm p a b : (forall x y, a = Some x -> b = Some y -> x = y) -> (keeps_unk p = false -> a = b) ->
+  apply_unk p a b = apply_unk p b a.
+Proof.
+  intros C A. destruct p; cbn [apply_unk keeps_unk] in *; try (now apply A).
+  - destruct a as [x|], b as [y|]; cbn [first_wins]; try reflexivity. now rewrite (C x y eq_refl eq_refl).
+  - destruct a as [x|], b as [y|]; cbn [first_wins]; try reflexivity. now rewrite (C x y eq_refl eq_refl).
+  - destruct a as [x|], b as [y|]; cbn [max_opt]; try reflexivity. now rewrite (C x y eq_refl eq_refl).
+  - unfold or_flags. now rewrite N.lor_comm.
+Qed.
+
+Lemma xpub_merge_sorted guarded : forall other self c, al_sorted self = true -> xpub_merge_with guarded self other = Val c -> al_sorted c = true.
+Proof.
+  induction other as [|[k v] r IH]; intros self c S H; cbn [xpub_merge_with] in H.
+  - now injection H as <-.
+  - destruct (al_find k self).
+    + destruct (reconcile_with guarded v b); try discriminate; eauto using al_sorted_insert.
+    + eauto using al_sorted_insert.
+Qed.
+Lemma xpub_merge_compat guarded : forall other self, al_sorted other = true ->
+  (forall k x y, al_find k self = Some x -> al_find k other = Some y -> x = y) ->
+  exists c, xpub_merge_with guarded self other = Val c /\
+            forall q, al_find q c = match al_find q other with Some v => Some v | None => al_find q self end.
+Proof.
+  induction other as [|[k v] r IH]; intros self S C; cbn [xpub_merge_with].
+  - exists self. split; reflexivity.
+  - cbn [al_sorted] in S. apply andb_true_iff in S as [L S]. pose proof (al_lb_find _ _ L) as NF.
+    destruct (al_find k self) as [v2|] eqn:F.
+    + assert (v2 = v) as ->. { apply (C k); [assumption|]. cbn. now rewrite bytes_eqb_refl. }
+      rewrite reconcile_same. destruct (IH self S) as [c [X Y]].
+      { intros q x y A B. apply (C q x y A). cbn [al_find]. destruct (bytes_eqb_spec q k) as [->|]; [congruence|assumption]. }
+      exists c. split; [assumption|]. intros q. rewrite Y. cbn [al_find].
+      destruct (bytes_eqb_spec q k) as [->|]; [now rewrite NF, F|reflexivity].
+    + destruct (IH (al_insert k v self) S) as [c [X Y]].
+      { intros q x y A B. rewrite al_find_insert in A. destruct (bytes_eqb_spec q k) as [->|N]; [congruence|].
+        apply (C q x y A). cbn [al_find]. destruct (bytes_eqb_spec q k); [contradiction|assumption]. }
+      exists c. split; [assumption|]. intros q. rewrite Y, al_find_insert. cbn [al_find].
+      destruct (bytes_eqb_spec q k) as [->|]; [now rewrite NF|reflexivity].
+Qed.
+
+(* the table run succeeds whenever every xpub statement does *)
+Lemma run_steps_total guarded tbl : forall self other, nodup_fields tbl = true ->
+  (forall f, In (f, MP_Xpub) tbl -> exists l, xpub_merge_with guarded (kyd self f) (kyd other f) = Val l) ->
+  exists c, run_steps guarded tbl self other = Val c.
+Proof.
+  induction tbl as [|[f p] r IH]; intros self other ND X; cbn [run_steps]; [eauto|].
+  cbn [nodup_fields] in ND. apply andb_true_iff in ND as [ND1 ND]. cbn [fst] in ND1. apply negb_true_iff in ND1.
+  assert (exists s1, step_with guarded (f, p) self other = Val s1) as [s1 S].
+  { unfold step_with. cbn [fst snd]. destruct p; eauto.
+    - destruct (unk self f), (unk other f); eauto.
+    - destruct (X f (or_introl eq_refl)) as [l ->]. cbn. eauto. }
+  rewrite S. cbn [obind]. apply IH; [assumption|]. intros f' I.
+  assert (bytes_eqb f' f = false) as N.
+  { destruct (bytes_eqb_spec f' f) as [->|]; [|reflexivity]. exfalso.
+    assert (existsb (fun t => bytes_eqb f (fst t)) r = true) as Y; [|congruence].
+    apply existsb_exists. exists (f, MP_Xpub). split; [assumption|]. cbn. apply bytes_eqb_refl. }
+  rewrite (step_kyd_other _ _ _ _ _ _ _ S N). apply X. now right.
+Qed.
+
+Record pair_ok (tbl : list (field * merge_policy)) (a b : pmap) : Prop := {
+  po_wf_a : wf_map a; po_wf_b : wf_map b; po_compat : compat a b; po_agree : agree_unmerged tbl a b;
+  po_quiet_ab : quiet tbl a b; po_quiet_ba : quiet tbl b a }.
+Definition map_equiv (c c' : pmap) : Prop := forall f, unk c f = unk c' f /\ kyd c f = kyd c' f.
+
+Theorem merge_map_commutes guarded tbl a b : nodup_fields tbl = true -> pair_ok tbl a b ->
+  exists c c', run_steps guarded tbl a b = Val c /\ run_steps guarded tbl b a = Val c' /\ map_equiv c c'.
+Proof.
+  intros ND [WA WB [CU CK] AG QA QB].
+  destruct (run_steps_total guarded tbl a b ND) as [c HC].
+  { intros f I. destruct (xpub_merge_compat guarded (kyd b f) (kyd a f) (WB f)) as [l [X _]]; [apply CK|eauto]. }
+  destruct (run_steps_total guarded tbl b a ND) as [c' HC'].
+  { intros f I. destruct (xpub_merge_compat guarded (kyd a f) (kyd b f) (WA f)) as [l [X _]]; [|eauto].
+    intros k x y A B. symmetry. eapply CK; eauto. }
+  exists c, c'. split; [assumption|]. split; [assumption|]. intros f. split.
+  - rewrite (run_steps_unk_quiet _ _ _ _ _ ND QA HC), (run_steps_unk_quiet _ _ _ _ _ ND QB HC').
+    apply apply_unk_comm; [apply CU|apply AG].
+  - pose proof (run_steps_kyd _ _ _ _ _ f ND HC) as R. pose proof (run_steps_kyd _ _ _ _ _ f ND HC') as R'.
+    assert (forall q, match al_find q (kyd b f) with Some v => Some v | None => al_find q (kyd a f) end
+                    = match al_find q (kyd a f) with Some v => Some v | None => al_find q (kyd b f) end) as SYM.
+    { intros q. destruct (al_find q (kyd a f)) eqn:A, (al_find q (kyd b f)) eqn:B; try reflexivity. f_equal. symmetry. eapply CK; eauto. }
+    destruct (policy_of tbl f) eqn:P; cbn [kyd_rel] in R, R'; try (rewrite R, R'; apply AG; now rewrite P).
+    + rewrite R, R'. apply al_sorted_ext; [apply al_sorted_extend, WA|apply al_sorted_extend, WB|]. intros q.
+      rewrite !al_find_extend_sorted by (apply WA || apply WB). apply SYM.
+    + rewrite R, R'. apply al_sorted_ext; [apply al_sorted_extend, WA|apply al_sorted_extend, WB|]. intros q.
+      rewrite !al_find_extend_sorted by (apply WA || apply WB). apply SYM.
+    + destruct (xpub_merge_compat guarded (kyd b f) (kyd a f) (WB f)) as [l [X Y]]; [apply CK|].
+      destruct (xpub_merge_compat guarded (kyd a f) (kyd b f) (WA f)) as [l' [X' Y']]. { intros k x y A B. symmetry. eapply CK; eauto. }
+      rewrite R in X. injection X as <-. rewrite R' in X'. injection X' as <-.
+      apply al_sorted_ext; [eapply xpub_merge_sorted; [apply WA|exact R]|eapply xpub_merge_sorted; [apply WB|exact R']|].
+      intros q. rewrite Y, Y'. apply SYM.
+Qed.
+
+(* ---- whole PSETs *)
+Definition pset_equiv (c c' : pset) : Prop :=
+  map_equiv (pglobal c) (pglobal c') /\ Forall2 map_equiv (pinputs c) (pinputs c') /\ Forall2 map_equiv (poutputs c) (poutputs c').
+Record pset_pair_ok (T : tables) (a b : pset) : Prop := {
+  ppo_global : pair_ok (t_global T) (pglobal a) (pglobal b);
+  ppo_inputs : Forall2 (pair_ok (t_input T)) (pinputs a) (pinputs b);
+  ppo_outputs : Forall2 (pair_ok (t_output T)) (poutputs a) (poutputs b) }.
+
+Lemma zip_merge_commutes (mm : pmap -> pmap -> outcome pmap) (P : pmap -> pmap -> Prop) :
+  (forall x y, P x y -> exists c c', mm x y = Val c /\ mm y x = Val c' /\ map_equiv c c') ->
+  forall xs ys, Forall2 P xs ys -> exists cs cs', zip_merge mm xs ys = Val cs /\ zip_merge mm ys xs = Val cs' /\ Forall2 map_equiv cs cs'.
+Proof.
+  intros HP xs ys F. induction F as [|x y xs ys Pxy F IH].
+  - exists [], []. cbn. auto.
+  - destruct (HP _ _ Pxy) as [c [c' [M [M' E]]]]. destruct IH as [cs [cs' [Z [Z' E']]]].
+    exists (c :: cs), (c' :: cs'). cbn [zip_merge]. rewrite M, M', Z, Z'. cbn. auto.
+Qed.
+
+Section CommutesWithUid.
+  Context {id : Type} (id_eqb : id -> id -> bool) (uid : pset -> outcome id).
+  Theorem merge_commutes T a b x y : tables_ok T = true ->
+    uid a = Val x -> uid b = Val y -> id_eqb x y = true -> id_eqb y x = true -> pset_pair_ok T a b ->
+    exists c c', merge_with id_eqb uid T a b = Val c /\ merge_with id_eqb uid T b a = Val c' /\ pset_equiv c c'.
+  Proof.
+    intros OK A B E E' [G I O]. unfold tables_ok in OK. apply andb_true_iff in OK as [OK O3]. apply andb_true_iff in OK as [O1 O2].
+    destruct (merge_map_commutes (t_guarded T) _ _ _ O1 G) as [g [g' [Hg [Hg' Eg]]]].
+    destruct (zip_merge_commutes (merge_map_with (t_guarded T) (t_input T)) _ (fun x y => merge_map_commutes (t_guarded T) _ x y O2) _ _ I) as [ci [ci' [Hi [Hi' Ei]]]].
+    destruct (zip_merge_commutes (merge_map_with (t_guarded T) (t_output T)) _ (fun x y => merge_map_commutes (t_guarded T) _ x y O3) _ _ O) as [co [co' [Ho [Ho' Eo]]]].
+    exists (mkpset g ci co), (mkpset g' ci' co'). unfold merge_with, merge_maps_with, merge_map_with in *. rewrite A, B. cbn [uid_res_eqb].
+    rewrite E, E', Hg, Hg', Hi, Hi', Ho, Ho'. cbn [obind]. split; [reflexivity|]. split; [reflexivity|]. split; [exact Eg|]. split; [exact Ei|exact Eo].
+  Qed.
+End CommutesWithUid.
+
+(* descendants of a common ancestor by disjoint-or-identical additions are compatible *)
+Definition extends (o a : pmap) : Prop :=
+  (forall f x, unk o f = Some x -> unk a f = Some x) /\ (forall f k x, al_find k (kyd o f) = Some x -> al_find k (kyd a f) = Some x).
+Definition additions_agree (o a b : pmap) : Prop :=     (* whatever both added to the ancestor is identical *)
+  (forall f x y, unk o f = None -> unk a f = Some x -> unk b f = Some y -> x = y) /\
+  (forall f k x y, al_find k (kyd o f) = None -> al_find k (kyd a f) = Some x -> al_find k (kyd b f) = Some y -> x = y).
+Lemma descendants_compat o a b : extends o a -> extends o b -> additions_agree o a b -> compat a b.
+Proof.
+  intros [EA EA'] [EB EB'] [AU AK]. split.
+  - intros f x y A B. destruct (unk o f) as [z|] eqn:O; [|eauto]. rewrite (EA _ _ O) in A. rewrite (EB _ _ O) in B. congruence.
+  - intros f k x y A B. destruct (al_find k (kyd o f)) as [z|] eqn:O; [|eauto]. rewrite (EA' _ _ _ O) in A. rewrite (EB' _ _ _ O) in B. congruence.
+Qed.
+
+Lemma In_policy_of tbl f p : nodup_fields tbl = true -> In (f, p) tbl -> policy_of tbl f = p.
+Proof.
+  induction tbl as [|[f' p'] r IH]; intros ND I; [contradiction|].
+  cbn [nodup_fields] in ND. apply andb_true_iff in ND as [ND1 ND]. cbn [fst] in ND1. apply negb_true_iff in ND1.
+  destruct I as [[= -> ->]|I].
+  - apply policy_of_cons_same.
+  - destruct (bytes_eqb_spec f f') as [->|N].
+    + exfalso. assert (existsb (fun t => bytes_eqb f' (fst t)) r = true) as Y; [|congruence].
+      apply existsb_exists. exists (f', p). split; [assumption|]. cbn. apply bytes_eqb_refl.
+    + rewrite policy_of_cons_other by (now apply bytes_eqb_neq). auto.
+Qed.
